@@ -287,7 +287,7 @@ type executor struct {
 func newExecutor(prog *program, specs *specDB) *executor {
 	return &executor{prog: prog, specs: specs, ghostTypes: map[string]types.Type{}, instrNames: map[ssa.Instruction]string{},
 		dropped: map[string]int{}, externs: map[string]bool{}, axiomsUsed: map[string]bool{}, globals: map[string]*T{}, maxPaths: 20000,
-		srcText: map[token.Pos]string{}, assumeNotes: map[string]bool{}}
+		srcText: globalSrcText, assumeNotes: map[string]bool{}}
 }
 
 func (x *executor) note(s string) { x.assumeNotes[s] = true }
@@ -347,6 +347,9 @@ func (p *program) srcFile(file string) []byte {
 }
 
 var indexedFns = map[*ssa.Function]bool{}
+
+// source text of expressions by position, shared by all executors (filled once per top-level function)
+var globalSrcText = map[token.Pos]string{}
 
 func (x *executor) indexSource(fn *ssa.Function) {
 	root := fn
@@ -502,13 +505,25 @@ func (x *executor) verify(key string) (err error) {
 		x.params[p.Name()+"0"] = v
 	}
 	// closures verified standalone: free variables are pointers to symbolic cells
+	var selfCell *Cell
+	var fvPtrs []Val
 	for _, fv := range x.fn.FreeVars {
 		pt := fv.Type().Underlying().(*types.Pointer)
 		cell := x.newCell(nil, fv.Name(), pt.Elem())
-		v := x.symbolic(st, fv.Name(), pt.Elem())
-		st.cells[cell] = v
-		fr.env[fv] = Val{ptr: &Ptr{kind: pkCell, cell: cell, base: pt.Elem()}, typ: fv.Type()}
-		x.params[fv.Name()] = v
+		if x.fc.selfVar != "" && fv.Name() == x.fc.selfVar {
+			selfCell = cell
+		} else {
+			v := x.symbolic(st, fv.Name(), pt.Elem())
+			st.cells[cell] = v
+			x.params[fv.Name()] = v
+		}
+		pv := Val{ptr: &Ptr{kind: pkCell, cell: cell, base: pt.Elem()}, typ: fv.Type()}
+		fr.env[fv] = pv
+		fvPtrs = append(fvPtrs, pv)
+	}
+	if selfCell != nil {
+		// the captured variable that holds this very closure (recursion through a func variable)
+		st.cells[selfCell] = Val{fn: &FnVal{fn: x.fn, bindings: fvPtrs}, typ: selfCell.typ}
 	}
 	// interface contract being implemented
 	if x.fc.implements != "" {
@@ -649,7 +664,7 @@ func (x *executor) modTargetOf(ev *evaluator, e Expr) modTarget {
 		}
 		return modTarget{heap: true, typ: p.base, sort: heapKey(p.base), ref: p.ref, path: p.path}
 	case *types.Map:
-		return modTarget{heap: true, sort: "map:" + typeKey(v.typ), ref: v.t}
+		return modTarget{heap: true, typ: v.typ, sort: "map:" + typeKey(v.typ), ref: c.termOf(v)}
 	case *types.Interface:
 		return modTarget{iface: typeKeyShort(v.typ)}
 	}
